@@ -323,7 +323,7 @@ class Differ:
             data=syn_pairs)
 
         for (lidx, lele, ridx, rele) in syn_pairs:
-            if lele is None:
+            if lidx is None:
                 next_path = path + "[{}]".format(ridx)
                 diff_action = DiffActions.ADD
                 opposite_val = None
@@ -346,7 +346,7 @@ class Differ:
                     diff_action, next_path, opposite_val, rele,
                     lhs_parent=lhs, lhs_iteration=lidx,
                     rhs_parent=rhs, rhs_iteration=ridx))
-            elif rele is None:
+            elif ridx is None:
                 next_path = path + "[{}]".format(lidx)
                 self._diffs.append(
                     DiffEntry(
@@ -486,14 +486,14 @@ class Differ:
             data=syn_pairs)
 
         for (lidx, lele, ridx, rele) in syn_pairs:
-            if lele is None:
+            if lidx is None:
                 next_path = path + "[{}]".format(ridx)
                 self._diffs.append(
                     DiffEntry(
                         DiffActions.ADD, next_path, None, rele,
                         lhs_parent=lhs, lhs_iteration=lidx,
                         rhs_parent=rhs, rhs_iteration=ridx))
-            elif rele is None:
+            elif ridx is None:
                 next_path = path + "[{}]".format(lidx)
                 self._diffs.append(
                     DiffEntry(
